@@ -61,6 +61,10 @@ WHITELIST = [
     ("_get_spans_for_2_fields_by_spans", ["arr", "arr"]),
     ("apply_filter_to_index_values", ["barr", "arr", "arr"]),
     ("apply_indices_to_index_values", ["arr", "arr", "arr"]),
+    ("next_map_subchunk", ["arr", "int", "int", "int"]),
+    ("get_valid_value_extents", ["arr", "int", "int", "int"]),
+    ("map_valid", ["arr", "arr", "opt_arr", "int"]),
+    ("ordered_map_valid_partial", ["arr", "arr", "int", "int", "int", "arr", "int", "int"]),
 ]
 
 LEAN_T = {"int": "Int", "bool": "Bool", "arr": "List Int", "barr": "List Bool", "opt_arr": "Option (List Int)"}
@@ -130,6 +134,7 @@ class Kernel:
         self.opt = {f"p{k}" for k, t in enumerate(ptypes) if t == "opt_arr"}    # optional parameters (static)
         self.loops = {}          # id(node) -> (k, has_break)
         self.number_loops()
+        self.find_mutated()
         self.flagged = set()
         self.tmp = 0
         self.defs = []
@@ -163,6 +168,32 @@ class Kernel:
             for n in ordered_nodes(b):
                 if isinstance(n, ast.Name) and n.id in names:
                     n.id = names[n.id]
+
+    def find_mutated(self):
+        """array parameters the kernel stores into (`p[i] = …`, `p[a:b] = …`): the caller sees the stores, so their final
+        contents are part of the result (appended to the returned value unless the parameter itself is returned)"""
+        params = {f"p{k}" for k in range(len(self.ptypes))}
+        stored, rebound = set(), set()
+        for b in self.body:
+            for n in ordered_nodes(b):
+                if isinstance(n, ast.Subscript) and isinstance(n.ctx, ast.Store) and isinstance(n.value, ast.Name) \
+                        and n.value.id in params:
+                    stored.add(n.value.id)
+                if isinstance(n, ast.Name) and isinstance(n.ctx, ast.Store) and n.id in params:
+                    rebound.add(n.id)
+        rebound -= self.opt_params_static()
+        if stored & rebound:
+            raise Unsupported("store into a parameter that is also re-assigned")
+        ret = self.body[-1].value if self.body and isinstance(self.body[-1], ast.Return) else None
+        returned = set()
+        if ret is not None:
+            for e in (ret.elts if isinstance(ret, ast.Tuple) else [ret]):
+                if isinstance(e, ast.Name):
+                    returned.add(e.id)
+        self.mutated = sorted((p for p in stored if p not in returned), key=lambda x: int(x[1:]))
+
+    def opt_params_static(self):
+        return {f"p{k}" for k, t in enumerate(self.ptypes) if t == "opt_arr"}
 
     def number_loops(self):
         k = 0
@@ -621,6 +652,7 @@ class Kernel:
                 parts = [self.expr(e, d) for e in ret.value.elts]
             else:
                 parts = [self.expr(ret.value, d)]
+            parts += [self.var(p, d) for p in self.mutated]      # final contents of the arrays the kernel wrote into
             binds = [b for p in parts for b in p[2]]
             self.ret_types = [p[0] for p in parts]
             rterm = parts[0][1] if len(parts) == 1 else "(" + ", ".join(p[1] for p in parts) + ")"
@@ -655,7 +687,8 @@ class Kernel:
         params = " ".join(f"(p{k} : {LEAN_T[t]})" for k, t in enumerate(self.ptypes)) + (" (fuel : Nat)" if fuel else "")
         names = " ".join(f"{c}={self.orig[c]}" for c in [f"p{k}" for k in range(len(self.ptypes))] + self.locals)
         run_body = f"let s : St := {{ {', '.join(init)} }}\n{main}"
-        L = [f"/-! ### `{self.name}`  ({names}) -/", f"namespace {self.name}", "",
+        mut = ("; result = returned value" + "".join(", final " + self.orig[p] for p in self.mutated)) if self.mutated else ""
+        L = [f"/-! ### `{self.name}`  ({names}{mut}) -/", f"namespace {self.name}", "",
              "structure St where"] + fields + ["", *[d + "\n" for d in self.defs],
              f"/-- `{self.name}({', '.join(self.src_params)})` -/",
              f"def run {params} : Except Err ({rtype}) :=", ind(run_body, 2), "", f"end {self.name}", ""]
